@@ -82,7 +82,7 @@ func FindMajority(quorum, threshold uint, set ...uint) int {
 		return set[i] > set[j]
 	})
 
-	if quorum-sum+set[0] < th {
+	if sum > quorum || quorum-sum+set[0] < th {
 		return -2
 	}
 
